@@ -672,3 +672,10 @@ add("C05", "tokenizer hex validation loses its try", "sqlglot/tokenizer_core.py"
     "        int(value, 16)\n        self._add(TokenType.HEX_STRING, value[2:])  # Drop the 0x\n", "C05.k")
 add("C05", "benign: guard written with str.isdigit", "sqlglot/generators/hive.py",
     "            if size_expression and is_int(size_expression.name):", "            if size_expression and size_expression.name.isdigit():", "silent", 0)
+
+add("C05", "revert: _parse_join returns a join although the peeked APPLY was not consumed", P,
+    "        if not skip_join_token and not join and self._index == index:\n            # APPLY was only peeked: if the table parser didn't consume it, there's no join here\n            return None\n",
+    "", "C05.a")
+add("C05", "consuming match turned into a peek through the positional advance flag", P,
+    "        while self._match(TokenType.ON):\n            if not self._match_set((TokenType.DELETE, TokenType.UPDATE)):",
+    "        while self._match(TokenType.ON, False):\n            if not self._match_set((TokenType.DELETE, TokenType.UPDATE)):", "C05.a")
